@@ -83,7 +83,7 @@ def mk_request(rng, target, host, *, method=None, keepalive=True, body_kind=None
     method = method or rng.choice([b'GET', b'GET', b'GET', b'POST', b'PUT', b'DELETE'])
     hdrs = [[rng.choice([b'Host', b'host', b'HOST']), host]]
     extra = [[b'User-Agent', b'curl/8.0'], [b'Accept', b'*/*'], [b'X-Trace', b'a:b c'], [b'Proxy-Connection', b'keep-alive'],
-             [b'Cookie', b'k=v; x=y'], [b'X-Empty', b''], [b'Connection', b'keep-alive']]
+             [b'Cookie', b'k=v; x=y'], [b'X-Empty', b''], [b'Connection', b'keep-alive'], [b'Via', b'1.0 fred'], [b'via', b'1.1 a, 1.1 b']]
     for h in rng.sample(extra, rng.randrange(0, 3)):
         if keepalive or h[0] != b'Connection':
             hdrs.append(list(h))
@@ -694,6 +694,9 @@ def expected_tags(case, out):
 
 def oracle(case, out):
     reqs = case.get('requests') or []
+    if case.get('expect_up') is not None:       # tunnels: what the upstream peers must have received
+        if [bytes(u) for u in out['up']] != [bytes(u) for u in case['expect_up']]:
+            return 'upstream peers received %r, expected %r' % ([bytes(u)[:80] for u in out['up']], [bytes(u)[:80] for u in case['expect_up']])
     if not reqs or case.get('kind') == 'malformed':
         return None
     exp = expected_tags(case, out)
@@ -737,21 +740,39 @@ def nontrivial(case, out):
 
 
 def classify(case, out, failure):
+    """a failure is attributed to a recorded finding only when the case is in the finding's class AND the
+    implementation did exactly what the finding says (so another defect in such a case is not masked)"""
     reqs = case.get('requests') or []
-    if len(reqs) < 2:
+    if len(reqs) < 2 or failure == 'model-mismatch' or case.get('kind') == 'malformed':
         return None
+    if not all(is_keepalive(r) for r in reqs):
+        return None
+    res, err = parse_responses(reqs, out['client'])
     if case['mode'] == 'forward':
         first = named_origin(reqs[0])
-        if any(named_origin(r)[:2] != first[:2] for r in reqs[1:]):
+        if all(named_origin(r)[:2] == first[:2] for r in reqs[1:]):
+            return None
+        # the finding: ONE connection, to the first origin, received every request, in order, and answered them all
+        got = [(bytes(m), bytes(t)) for m, t, n in (out['origin_requests'][0] if out['origin_requests'] else [])]
+        want = [(r['method'], named_origin(r)[2]) for r in reqs]
+        if out['connect_log'] == [[first[0], first[1]]] and got == want and len(res) == len(reqs) and not err and \
+                all(r['headers'].get(b'x-origin') == b'up0' for r in res):
             return 'C04-other-origin'
         return None
     exp = expected_tags(case, out)
     def key(e):
         return None if e is None else ('rev' if isinstance(e, list) else e.get(b'x-route'))
     if key(exp[0]) == 'rev':
-        return 'C04-reverse-followup'
-    if any(key(e) != key(exp[0]) for e in exp[1:]):
-        return 'C04-web-followup-route'
+        # the finding: every request matching a reverse-proxy route opened its OWN connection, which was sent at most that one request
+        n_rev = sum(1 for e in exp if key(e) == 'rev')
+        if len(out['connect_log']) == n_rev and all(len(o) <= 1 for o in out['origin_requests']):
+            return 'C04-reverse-followup'
+        return None
+    if key(exp[0]) is not None and any(key(e) != key(exp[0]) for e in exp[1:]):
+        # the finding: the plugin of the first request answered every request
+        if not err and len(res) == len(reqs) and all(r['headers'].get(b'x-route') == key(exp[0]) for r in res) and \
+                [r['headers'].get(b'x-req') for r in res] == [r['target'] for r in reqs]:
+            return 'C04-web-followup-route'
     return None
 
 
